@@ -208,9 +208,16 @@ def gen_case(rng):
     rows, cols = rng.choice([(8, 12), (10, 14), (9, 16), (12, 10)])
     lo = rng.choice([-3, -2, -1, 0, 1])
     hi = lo + rng.choice([0, 1, 2, 3, 4])
-    bands = ["r", "g", "b"] if rng.random() < 0.15 else None
+    bands = ["r", "g", "b"] if rng.random() < 0.25 else None
     left, right = pl.make_pair(rng, rows, cols, lo, hi, bands=bands, masks=rng.random() < 0.4)
     pipe = pl.gen_pipeline(rng, allow_agg=bands is None)
+    if bands and rng.random() < 0.6:
+        # bands are selected by name: the right image may store them in another order (seed C08-5: a band position
+        # remembered from the left/right call and reused for the right/left one)
+        perm = rng.choice([[2, 0, 1], [1, 2, 0], [1, 0, 2], [2, 1, 0]])
+        attrs = dict(right.attrs)
+        right = right.isel(band_im=perm).copy(deep=True)
+        right.attrs = attrs
     if bands:
         pipe["matching_cost"]["band"] = rng.choice(bands)
         # multiband + subpix > 1 raises in the matching cost classes (C02's finding, not C08's subject)
